@@ -19,4 +19,32 @@ let run (toks : string list) : string =
       String.concat " " (L.map (fun (n, s) ->
           Printf.sprintf "%d/%d/%s/%d" (int_of_nat n) (L.length s.PlainFrame.ps_header) (dec_of_n s.PlainFrame.ps_body)
             (if s.PlainFrame.ps_unframed then 1 else 0)) rs)
+  | ["pw"; stream; evs; orc] ->
+    let orc = if orc = "-" then [] else L.map (fun o ->
+        if o = "U" then PlainFrame.CUnknown else if o = "B" then PlainFrame.CBad
+        else PlainFrame.CL (n_of_dec o)) (split_on ',' orc) in
+    let w = ref (PlainRead.winit (unhex_or stream) orc) in
+    let state (c : PlainRead.cst) =
+      Printf.sprintf "%d/%d/%s/%d/%d" (L.length c.PlainRead.c_plain) (L.length c.PlainRead.c_p.PlainFrame.ps_header)
+        (dec_of_n c.PlainRead.c_p.PlainFrame.ps_body) (if c.PlainRead.c_p.PlainFrame.ps_unframed then 1 else 0)
+        (if c.PlainRead.c_resp then 1 else 0) in
+    let outs = L.map (fun e ->
+        let num () = int_of_string (String.sub e 1 (String.length e - 1)) in
+        match e.[0] with
+        | 'A' -> w := PlainRead.wstep !w (PlainRead.EArrive (nat_of_int (num ()))); "-"
+        | 'V' -> w := PlainRead.wstep !w PlainRead.EVerify; "-"
+        | 'D' -> w := PlainRead.wstep !w PlainRead.EDone; "-"
+        | 'R' ->
+          let max = nat_of_int (num ()) in
+          let (((r, _), _), _) = PlainRead.cread !w.PlainRead.w_c !w.PlainRead.w_sock max !w.PlainRead.w_orc in
+          w := PlainRead.wstep !w (PlainRead.ERead max);
+          let c = !w.PlainRead.w_c in
+          if c.PlainRead.c_enc || c.PlainRead.c_closed then "s" else
+          (match r with
+           | PlainRead.PHand d -> "h:" ^ hx d ^ "/" ^ state c
+           | PlainRead.PZero -> "z/" ^ state c
+           | PlainRead.PBlock -> "b"
+           | PlainRead.PClosed | PlainRead.PSecure -> "s")
+        | _ -> "bad") (split_on ',' evs) in
+    String.concat " " outs
   | _ -> "badcase"
